@@ -657,7 +657,9 @@ func (c *Ctx) lengthGuard(rp map[*ssa.Function]bool, rule string) {
 		return false, ""
 	}
 	// establishing functions: every nil-error return is dominated by the guard
-	establishes := func(h *ssa.Function) (bool, string) {
+	var establishes func(h *ssa.Function) (bool, string)
+	estDepth := 0
+	establishes = func(h *ssa.Function) (bool, string) {
 		at := ""
 		n := 0
 		okAll := true
@@ -676,6 +678,20 @@ func (c *Ctx) lengthGuard(rp map[*ssa.Function]bool, rule string) {
 			if !isNil {
 				// error may be a non-constant that is nil at run time (e.g. `return cmd, stream, err`): treat conservatively
 				if _, isConst := e.(*ssa.Const); !isConst && !definitelyNonNilError(e) {
+					// the error is what a checking helper returned (return …, h.checkLength()): nil only if that
+					// helper's nil returns are behind the guard
+					if hc, isCall := flow.Peel(e).(*ssa.Call); isCall && estDepth < 2 {
+						if h2 := flow.StaticCallee(hc); h2 != nil && h2.Blocks != nil && c.P.IsLibrary(h2) && h2 != h {
+							estDepth++
+							ok2, where := establishes(h2)
+							estDepth--
+							if ok2 {
+								n++
+								at = where
+								return
+							}
+						}
+					}
 					// non-constant error result: only fine if it is on an error edge (cannot tell) — require guard too
 					if g, _ := guardedAt(ret); !g && !onErrEdge(ret, e) {
 						okAll = false
